@@ -237,6 +237,10 @@ pub fn try_wait_bg_jobs(sh: &mut shell::Shell, report: bool, sig_handler_enabled
     for (_i, job) in jobs.iter() {
         for pid in job.pids.iter() {
             if let Some(_status) = signals::pop_reap_map(*pid) {
+                // a stop/continue parked for a process that has terminated
+                // since must not outlive it: the pid may be used again
+                signals::pop_stopped_map(*pid);
+                signals::pop_cont_map(*pid);
                 mark_job_as_done(sh, job.gid, *pid, "Done");
                 continue;
             }
@@ -253,6 +257,8 @@ pub fn try_wait_bg_jobs(sh: &mut shell::Shell, report: bool, sig_handler_enabled
                 } else {
                     format!("Killed: {}", sig)
                 };
+                signals::pop_stopped_map(*pid);
+                signals::pop_cont_map(*pid);
                 mark_job_as_done(sh, job.gid, *pid, &reason);
                 continue;
             }
